@@ -1618,7 +1618,10 @@ func (s *ImmuStore) releaseVLog(vLogID byte) error {
 	s.vLogsCond.L.Lock()
 	s.vLogs[vLogID-1].unlockedRef = s.vLogUnlockedList.PushBack(vLogID - 1) // unlocked
 	s.vLogsCond.L.Unlock()
-	s.vLogsCond.Signal()
+	// waiters wait for different things (any value log, or one in particular):
+	// waking a single one may pick a waiter this release is of no use to, and
+	// leave the one that needs it asleep forever
+	s.vLogsCond.Broadcast()
 
 	return nil
 }
